@@ -36,11 +36,25 @@ type ghState struct {
 type graphChecker struct {
 	run      *vf.Run
 	u        gmodel.Universe
-	open     func() (gdbi.GraphDB, func() string) // fresh database + raw dump function
+	open     func() *dbHandle // fresh database
+	memKey   bool             // add the in-memory index registry (as far as the harness can know it) to the state key
 	prop     string
 	samples  []string
 	outcomes map[string]bool
 	nontriv  map[string]bool
+}
+
+// dbHandle is a real database plus what the harness needs to reopen and dump it.
+type dbHandle struct {
+	db     gdbi.GraphDB
+	dump   func() string
+	reopen func() gdbi.GraphDB
+}
+
+func memHandle() *dbHandle {
+	kv := memkv.New()
+	return &dbHandle{db: kvgraph.NewKVGraph(kv), dump: kv.DumpString,
+		reopen: func() gdbi.GraphDB { return kvgraph.NewKVGraph(kv) }}
 }
 
 func c03Universe(thorough bool) gmodel.Universe {
@@ -198,10 +212,11 @@ func histString(h []gmodel.Op) string {
 
 // step replays s.hist on a fresh database, applies op and checks everything.
 func (gc *graphChecker) step(s ghState, op gmodel.Op) histmc.Succ[ghState] {
-	db, dump := gc.open()
+	h := gc.open()
+	db, dump := h.db, h.dump
 	for _, o := range s.hist {
 		if o.Kind == "Reopen" {
-			db = gc.reopen(db)
+			db = h.reopen()
 			continue
 		}
 		gmodel.ApplyDB(db, o)
@@ -213,7 +228,7 @@ func (gc *graphChecker) step(s ghState, op gmodel.Op) histmc.Succ[ghState] {
 	var err error
 	var pan string
 	if op.Kind == "Reopen" {
-		db = gc.reopen(db)
+		db = h.reopen()
 	} else {
 		err, pan = gmodel.ApplyDB(db, op)
 	}
@@ -301,6 +316,9 @@ func (gc *graphChecker) step(s ghState, op gmodel.Op) histmc.Succ[ghState] {
 		return histmc.Succ[ghState]{}
 	}
 	key := next.Key() + "#" + dump() + "#" + strings.Join(histmc.SortedKeys(taint), ",")
+	if gc.memKey {
+		key += "#" + memFields(hist)
+	}
 	gc.note(hist, next, key)
 	return histmc.Succ[ghState]{State: ghState{hist: hist, world: next, taint: taint}, Key: key}
 }
@@ -315,7 +333,24 @@ func untainted(d []gmodel.Mismatch, taint map[string]bool) []gmodel.Mismatch {
 	return o
 }
 
-func (gc *graphChecker) reopen(db gdbi.GraphDB) gdbi.GraphDB { return db }
+// memFields approximates the in-memory index registry: the graphs created since
+// the last reopen and not deleted since.
+func memFields(hist []gmodel.Op) string {
+	m := map[string]bool{}
+	for _, o := range hist {
+		switch o.Kind {
+		case "Reopen":
+			m = map[string]bool{}
+		case "AddGraph":
+			if gmodel.ValidName(o.G) {
+				m[o.G] = true
+			}
+		case "DeleteGraph":
+			delete(m, o.G)
+		}
+	}
+	return strings.Join(histmc.SortedKeys(m), ",")
+}
 
 var noteMu = make(chan struct{}, 1)
 
@@ -346,10 +381,7 @@ func C03(tier string) int {
 		depth = d
 	}
 	gc := &graphChecker{run: run, u: c03Universe(thorough), prop: "C03", outcomes: map[string]bool{}, nontriv: map[string]bool{}}
-	gc.open = func() (gdbi.GraphDB, func() string) {
-		kv := memkv.New()
-		return kvgraph.NewKVGraph(kv), kv.DumpString
-	}
+	gc.open = memHandle
 	ops := c03Ops(thorough)
 	init := ghState{world: gmodel.World{}, taint: map[string]bool{}}
 	st := histmc.BFS(init, "init", ops, depth, time.Now().Add(budget), gc.step)
